@@ -37,6 +37,42 @@ from rogw.tranp.view.render import Renderer, RendererEmitter
 StringFormatDict = TypedDict('StringFormatDict', {'label': str, 'tag': str, 'var_type': str, 'is_literal': bool})
 
 
+class CppPrecedences:
+	"""C++の演算子の優先順位 (数値が大きいほど強く結合) @see https://en.cppreference.com/w/cpp/language/operator_precedence"""
+
+	Ternary: ClassVar[int] = 1
+	Unary: ClassVar[int] = 12
+	Primary: ClassVar[int] = 13
+
+	__binaries: ClassVar[dict[str, int]] = {
+		'or': 2, 'and': 3,
+		'|': 4, '^': 5, '&': 6,
+		'==': 7, '!=': 7, '<>': 7, 'is': 7, 'is.not': 7,
+		'<': 8, '>': 8, '<=': 8, '>=': 8,
+		'<<': 9, '>>': 9,
+		'+': 10, '-': 10,
+		'*': 11, '/': 11, '%': 11,
+	}
+
+	@classmethod
+	def by_operator(cls, operator: str) -> int:
+		"""Args: operator: Pythonの2項演算子 Returns: 被演算子に要求するC++での優先順位 Note: in/not.inは被演算子が関数の引数として出力されるため括弧は不要(0)"""
+		return cls.__binaries.get(operator, 0)
+
+	@classmethod
+	def of(cls, node: Node) -> int:
+		"""Args: node: 式ノード Returns: 出力されるC++の式の優先順位"""
+		if isinstance(node, defs.TernaryOperator):
+			return cls.Ternary
+		elif isinstance(node, defs.UnaryOperator):
+			return cls.Unary
+		elif isinstance(node, defs.BinaryOperator):
+			# in/not.inは関数呼び出し、または括弧付きで出力される
+			return min([cls.__binaries.get(element.tokens, cls.Primary) for element in node.elements[1::2]])
+		else:
+			return cls.Primary
+
+
 class Py2Cpp(ITranspiler):
 	"""Python -> C++のトランスパイラー"""
 
@@ -1377,10 +1413,32 @@ class Py2Cpp(ITranspiler):
 	# Operator
 
 	def on_factor(self, node: defs.Factor, operator: str, value: str) -> str:
-		return self.render(node, 'operation/unary_operator', vars={'operator': operator, 'value': value})
+		return self.render(node, 'operation/unary_operator', vars={'operator': operator, 'value': self.proc_operand(node.value, value, CppPrecedences.Unary, False)})
 
 	def on_not_compare(self, node: defs.NotCompare, operator: str, value: str) -> str:
-		return self.render(node, 'operation/unary_operator', vars={'operator': '!', 'value': value})
+		return self.render(node, 'operation/unary_operator', vars={'operator': '!', 'value': self.proc_operand(node.value, value, CppPrecedences.Unary, False)})
+
+	def proc_operand(self, operand_node: Node, operand: str, precedence: int, is_right: bool) -> str:
+		"""演算子の被演算子を出力。C++の優先順位ではPythonと異なる結合になる場合に括弧で囲む
+
+		Args:
+			operand_node: 被演算子のノード
+			operand: 被演算子の出力文字列
+			precedence: 親の演算子のC++での優先順位
+			is_right: True = 左結合の2項演算子の右辺
+		Returns:
+			出力文字列
+		Note:
+			```
+			* Pythonは比較演算がビット演算より弱く、notが比較演算より弱い。C++は逆 (`a & b == c`, `not a == b`)
+			* 単項演算子の連続は字句が結合するため括弧で囲む (`- -a` -> `-(-a)`)
+			```
+		"""
+		operand_precedence = CppPrecedences.of(operand_node)
+		if operand_precedence < precedence or (is_right and operand_precedence == precedence) or (precedence == CppPrecedences.Unary and isinstance(operand_node, defs.Factor)):
+			return f'({operand})'
+
+		return operand
 
 	def on_or_compare(self, node: defs.OrCompare, elements: list[str]) -> str:
 		return self.proc_binary_operation(node, elements)
@@ -1421,9 +1479,10 @@ class Py2Cpp(ITranspiler):
 		secondary_raws = [self.reflections.type_of(node_of_elements[index]) for index in right_indexs]
 
 		# 項目ごとに分離
-		primary = elements[0]
 		operators = [elements[index] for index in operator_indexs]
-		secondaries = [elements[index] for index in right_indexs]
+		precedences = [CppPrecedences.by_operator(operator) for operator in operators]
+		primary = self.proc_operand(node_of_elements[0], elements[0], precedences[0], False)
+		secondaries = [self.proc_operand(node_of_elements[index], elements[index], precedences[i], True) for i, index in enumerate(right_indexs)]
 
 		list_is_primary = primary_raw.impl(refs.Object).type_is(list)
 		list_is_secondary = secondary_raws[0].impl(refs.Object).type_is(list)
